@@ -450,6 +450,9 @@ def _area_replay(case, img, g0, sample, mode, mech):
 def _isophote_invariants(case, iso, mech):
     s = iso.sample
     inten = np.asarray(s.values[2], float)
+    if len(inten) == 0:          # ellipse without a valid sample point (maxsma beyond the frame): nothing defined
+        case.note('isophote_invariants_skipped_no_data', 1)
+        return
     case.close(iso.intens, float(np.mean(inten)), 'intens_is_sample_mean', rtol=1e-12, mech=mech)
     case.check(iso.ndata == len(inten) and iso.nflag == s.total_points - s.actual_points and iso.nflag >= 0,
                'ndata_nflag', mech, ndata=iso.ndata, nflag=iso.nflag, n=len(inten))
